@@ -1,5 +1,5 @@
 (** C18: sx interface of the model (decoders, judge, monitor). *)
-From BBS Require Import Common.Sx Auth.Auth.
+From BBS Require Import Common.Sx Common.ListX Auth.Auth.
 
 Fixpoint dec_tree (s : sx) : atree :=
   match s with
